@@ -119,7 +119,8 @@ class C23(EngineACheck):
         "reachable from the pushed executions must be present and equal, nothing may exist in B "
         "that A lacks, a repeated push must report 0 new records and change nothing, and after "
         "the last push the dump tables must be equal); finally an edited program runs on B and "
-        "must equal its run on an empty backend; a case is (programs, tag history, root "
+        "must equal its run on an empty backend, and that execution is transferred back into A "
+        "(once and again); a case is (programs, tag history, root "
         "selection); non-trivial = at least two executions and one superseded tag"
     )
     ASSUMPTIONS = EngineACheck.ASSUMPTIONS + [
@@ -128,7 +129,8 @@ class C23(EngineACheck):
         "outside the compared dump: the statement does not list them and the serializers drop them",
     ]
     EXPECTED_PROBES = ["partial_pushes", "repeated_pushes", "superseded_tags",
-                       "edited_runs_on_destination", "tag_edits_between_transfers"]
+                       "edited_runs_on_destination", "tag_edits_between_transfers",
+                       "reverse_transfers"]
     QUICK_SECONDS = 35.0
 
     def run_one(self, ch: Choices) -> RunOutcome:
@@ -291,6 +293,30 @@ class C23(EngineACheck):
                         if not same:
                             out.violate("C23.cache_containment", "edited-run-on-destination-differs",
                                         {"edited": t.name, "fresh": repr(kf)[:200], "destination": repr(kb)[:200]})
+            # ---- the other direction: what ran on B is pulled back into A --------------------
+            if not out.violations:
+                b = dump(db_b)
+                new_execs = sorted({dict(r)["id"] for r in b["execution"]} - set(exec_ids))
+                if new_execs:
+                    out.probe("reverse_transfers")
+                    n1 = self.sync(db_b, db_a, new_execs)
+                    a2 = dump(db_a)
+                    R = reachable(db_b, new_execs)
+                    pk = {"execution": "id", "job": "id", "call_node": "call_hash",
+                          "value": "value_hash", "task": "hash"}
+                    for t, ids in R.items():
+                        have = {dict(r)[pk[t]] for r in a2[t]}
+                        missing = ids - have - ({None} if t == "task" else set())
+                        if t == "task":
+                            missing = {m for m in missing if any(dict(r)["hash"] == m for r in b["task"])}
+                        if missing:
+                            out.violate("C23.reachable_records_transferred", f"reverse:missing:{t}",
+                                        {"missing": sorted(missing)[:3]})
+                            break
+                    n2 = self.sync(db_b, db_a, new_execs)
+                    if not out.violations and (n2 != 0 or dump(db_a) != a2):
+                        out.violate("C23.repeat_adds_nothing", "reverse:repeat-changed-something",
+                                    {"reported": n2, "first": n1})
         if w is not None:
             out.sample = self.sample(prog, w, res, note={"executions": len(exec_ids)})
         return out
